@@ -434,6 +434,16 @@ func c11Worker(tier Tier) int {
 					}
 				}
 			}
+			// freeze markers under identifiers that end in (or contain) a dash, then their wipe (the
+			// wipe is the one call of the family that builds a log from the identifier)
+			for _, id := range [][]byte{[]byte("S-"), []byte("S\x2d\x01"), []byte("F-1"), []byte("-")} {
+				mk := &uni.Builder{Env: envs[0], W: catalogueBase(envs[0])}
+				mk.Must(uni.SysCall(uni.B0, vmcommon.BuiltInFunctionESDTFreeze, id))
+				if mk.Failed == "" {
+					add(fmt.Sprintf("ESDTWipe/marker-%x", id), mk.W, uni.SysCall(uni.B0, vmcommon.BuiltInFunctionESDTWipe, id))
+					add(fmt.Sprintf("ESDTUnFreeze/marker-%x", id), mk.W, uni.SysCall(uni.B0, vmcommon.BuiltInFunctionESDTUnFreeze, id))
+				}
+			}
 			add("ESDTNFTCreateRoleTransfer/to-the-holder-itself", dup.W, uni.SysCall(uni.B0, vmcommon.BuiltInFunctionESDTNFTCreateRoleTransfer, uni.S, uni.B0))
 			for _, to := range [][]byte{uni.B0, uni.C1, uni.S0, uni.S1c} {
 				for _, n := range []int{1, 2, 3, 4, 5, 6, 8, 11, 16, 21, 32} {
